@@ -351,7 +351,9 @@ func runR4(c *Ctx) {
 				continue
 			}
 			cmp := cmps[0]
-			if cmp.Op != op {
+			negated := map[token.Token]token.Token{token.EQL: token.NEQ, token.NEQ: token.EQL, token.LSS: token.GEQ, token.GEQ: token.LSS, token.GTR: token.LEQ, token.LEQ: token.GTR}
+			if cmp.Op != op && cmp.Op != negated[op] { // the complementary operator under a negation is decided by R79's worlds
+
 				c.bad(key, p.instrPos(cmp), fmt.Sprintf("table key %q is bound to kernel %s which compares with %q", e.key, fname(e.fn), cmp.Op))
 				continue
 			}
